@@ -405,6 +405,10 @@ class Function(object):
                         i.ops[0].k in ('c', 'cf') and i.ops[1].k not in ('c', 'cf'):
                     # canonical form: `1 + i`, `31 & x` are `i + 1`, `x & 31` (clang -O0 keeps the source order)
                     i.ops = [i.ops[1], i.ops[0]]
+                if i.op == 'icmp' and len(i.ops) == 2 and i.ops[0].k in ('c', 'null') and i.ops[1].k not in ('c', 'null'):
+                    # canonical form: `0x7FFFFFFF < lo`, `NULL == p` are `lo > 0x7FFFFFFF`, `p == NULL`
+                    i.ops = [i.ops[1], i.ops[0]]
+                    i.pred = _SWAP_PRED.get(i.pred, i.pred)
                 if _MIRROR and i.op == 'icmp' and len(i.ops) == 2 and i.ops[1].k not in ('c', 'null'):
                     # checker self-test (tools/metamorphic.py): every comparison between two non-constant operands spelt the
                     # other way round (a < b  ->  b > a) means the same program; no verdict may change
